@@ -33,11 +33,11 @@ CLOCKS = ("ext:time.monotonic", "ext:time.time", "ext:time.perf_counter", "ext:t
 
 
 def run(ctx: Ctx, rep: Report) -> None:
-    rep.rule("C12-R1", "the discovery cache is filled before it is read, on every path of the v3 encode", floor=3)
-    rep.rule("C12-R2", "security engine id and default context engine id come from discovery", floor=2)
-    rep.rule("C12-R3", "the engine time sent advances with a local clock read relative to the moment of discovery", floor=3)
-    rep.rule("C12-R4", "all six usmStats report OIDs surface as SnmpError", floor=7)
-    rep.rule("C12-R5", "the discovery reply is matched to the probe by message id", floor=3)
+    rep.rule("C12-R1", "the discovery cache is filled before it is read, on every path of the v3 encode", floor=2)
+    rep.rule("C12-R2", "security engine id and default context engine id come from discovery", floor=1)
+    rep.rule("C12-R3", "the engine time sent advances with a local clock read relative to the moment of discovery", floor=2)
+    rep.rule("C12-R4", "all six usmStats report OIDs surface as SnmpError", floor=4)
+    rep.rule("C12-R5", "the discovery reply is matched to the probe by message id", floor=2)
     rep.rule("C12-R6", "a notInTimeWindow report leads to re-synchronisation (refresh / invalidation of the discovery cache)", floor=1)
     rep.assumptions += [
         "local and agent clocks advance at the same rate (drift arithmetic is not analysed)",
@@ -219,34 +219,59 @@ def run(ctx: Ctx, rep: Report) -> None:
     if val is None:
         rep.violated("C12-R4", "puresnmp_plugins/security/usm.py", "USM report validation exists", "validate_usm_message vanished", key="usm|no-report-validation")
     else:
-        # OID-keyed tables of the validator (one of them is the set of report OIDs that is tested)
+        # OID-keyed tables of the validator or of its module (one of them is the set of report OIDs that is tested)
         tables: Dict[str, Dict[str, ast.AST]] = {}
-        for n in own_nodes(val.node):
-            value = n.value if isinstance(n, (ast.Assign, ast.AnnAssign)) else None
-            tgt = (n.targets[0] if isinstance(n, ast.Assign) else n.target) if value is not None else None
-            if isinstance(value, (ast.Dict, ast.Set, ast.Tuple, ast.List)) and isinstance(tgt, ast.Name):
+
+        def oid_table(value: ast.AST) -> Dict[str, ast.AST]:
+            tab: Dict[str, ast.AST] = {}
+            if isinstance(value, (ast.Dict, ast.Set, ast.Tuple, ast.List)):
                 keys = value.keys if isinstance(value, ast.Dict) else value.elts
-                tab: Dict[str, ast.AST] = {}
                 for k in keys:
                     if isinstance(k, ast.Call) and k.args:
                         try:
                             tab[ctx.r.const(val.module, k.args[0])] = k
                         except NotConstant:
                             pass
-                if tab:
-                    tables[tgt.id] = tab
+            return tab
+
+        for n in own_nodes(val.node):
+            value = n.value if isinstance(n, (ast.Assign, ast.AnnAssign)) else None
+            tgt = (n.targets[0] if isinstance(n, ast.Assign) else n.target) if value is not None else None
+            if value is not None and isinstance(tgt, ast.Name) and oid_table(value):
+                tables[tgt.id] = oid_table(value)
+        for name, binding in ctx.r.env(val.module).items():
+            if binding.kind == "value" and binding.module is val.module and name not in tables and oid_table(binding.target):
+                tables[name] = oid_table(binding.target)
+        vdefs = ctx.defs(val)
         snmp_error = ctx.u.cls("puresnmp.exc:SnmpError")
         tested: Optional[str] = None
         loop_ok = False
         detail = ""
+
+        def hit_test(test: ast.AST, target: str) -> Optional[str]:
+            """Name of the table a test looks the binding's OID up in:  <b>.oid in T  /  T.get(<b>.oid) is not None  /  T.get(..)."""
+            test = vdefs.expand(test, stop=[target] + list(tables))
+            if isinstance(test, ast.Compare) and len(test.ops) == 1:
+                left, right = test.left, test.comparators[0]
+                if isinstance(test.ops[0], ast.In) and norm(left) == f"{target}.oid":
+                    if isinstance(right, ast.Call) and isinstance(right.func, ast.Attribute) and right.func.attr == "keys":
+                        right = right.func.value
+                    return norm(right) if norm(right) in tables else None
+                if isinstance(test.ops[0], ast.IsNot) and isinstance(right, ast.Constant) and right.value is None:
+                    return hit_test(left, target)
+            if isinstance(test, ast.Call) and isinstance(test.func, ast.Attribute) and test.func.attr == "get" and len(test.args) == 1 and norm(test.args[0]) == f"{target}.oid":
+                return norm(test.func.value) if norm(test.func.value) in tables else None
+            return None
+
         for n in own_nodes(val.node):
-            if isinstance(n, ast.For) and norm(n.iter).endswith(".varbinds"):
+            if isinstance(n, ast.For) and norm(vdefs.expand(n.iter)).endswith(".varbinds") and isinstance(n.target, ast.Name):
                 for sub in ast.walk(n):
-                    if not (isinstance(sub, ast.If) and isinstance(sub.test, ast.Compare) and len(sub.test.ops) == 1 and isinstance(sub.test.ops[0], ast.In)):
+                    if not isinstance(sub, ast.If):
                         continue
-                    if norm(sub.test.left) != f"{norm(n.target)}.oid" or norm(sub.test.comparators[0]) not in tables:
+                    tname = hit_test(sub.test, n.target.id)
+                    if tname is None:
                         continue
-                    tested = norm(sub.test.comparators[0])
+                    tested = tname
                     raises = [s for s in sub.body if isinstance(s, ast.Raise)]
                     classes = ctx.exc_classes(val, raises[0].exc) if raises else None
                     loop_ok = bool(raises) and classes is not None and all(ctx.r.is_subclass(c, snmp_error) for c in classes)
